@@ -931,6 +931,8 @@ fn scenario_for(t: &mut Tape, cfg: &TrippyConfig, target: IpAddr, trace_id: u16,
 /// Run one episode.
 pub fn run_episode(tape: Tape, env: &Env, check_c18: bool) -> Outcome {
     let mut t = tape;
+    // the keys of this episode's hash maps (see `detrand`): one decision of the tape
+    crate::detrand::reseed(u64::from(t.draw(1 << 20)));
     let mut counters = Counters::default();
     let mut violations: Vec<Violation> = Vec::new();
     // targets and configuration
